@@ -575,7 +575,20 @@ impl Database {
                 Ok(current) => match current.checked_add(inc) {
                     Some(next) => {
                         let next = next.to_string();
-                        db.insert(key.clone(), Value::from(next.clone()));
+                        let new_value = match db.get(&key.to_string()) {
+                            // An existing key keeps its version growing and keeps its place on
+                            // disk, exactly as a set does
+                            Some(old_value) => Value {
+                                value: next.clone(),
+                                version: old_value.version + 1,
+                                opp_id: Databases::next_op_log_id(),
+                                state: old_value.get_update_value_sate(),
+                                value_disk_addr: old_value.value_disk_addr,
+                                key_disk_addr: old_value.key_disk_addr,
+                            },
+                            None => Value::from(next.clone()),
+                        };
+                        db.insert(key.clone(), new_value);
                         (next, -1)
                     }
                     None => {
